@@ -135,6 +135,16 @@ def mon_c12(v, reqs, open_ids):
     """returns (violations [(name, detail)], known [(id, detail)])"""
     bad, known = [], []
     for q in reqs:
+        if q["type"] == CREATE and not q["restore"]:
+            # a CREATE that is not a restore must be the join of a member waiting to start (never a bootstrap, never a
+            # failed or healthy member: a member with data is restarted from it, i.e. restored)
+            s = v.shards.get(q["shard"])
+            mem = [r for r in s["reps"] if r[0] == q["inst"]] if s else []
+            if not q["join"]:
+                bad.append(("C12_flags", "CREATE for replica %d of shard %d flagged neither restore nor join (bootstrap)" % (q["inst"], q["shard"])))
+            elif not mem or not v.waiting(mem[0]):
+                bad.append(("C12_flags", "join CREATE for replica %d of shard %d which is not a member waiting to start%s" % (
+                    q["inst"], q["shard"], " (it is classified failed: must be a restore)" if mem and v.failed(mem[0]) else "")))
         if not (q["type"] == CREATE and q["restore"]):
             continue
         s = v.shards.get(q["shard"])
@@ -565,6 +575,23 @@ def run_property(ck, eng, ctxs, monitor, proofs_ok, what):
     ck.cov["traces_validated_against_impl"] = ck.cov.get("traces_validated_against_impl", 0) + len(ctxs)
     unexplained = [i for i in mm if i not in flagged]
     ck.cov["model_disagreements"] = len(mm)
+    # The properties leave ONE point free (DESIGN.md Appendix F, C05): a NodeHost that reported exactly ttl ago may or may
+    # not count as live for placement (the code says no: liveFilter is strict).  A disagreement that disappears when
+    # such NodeHosts are treated as live is recorded, not reported.
+    bnd = [i for i in unexplained if any(ctxs[i]["tick"] - h["tick"] == eng.ttl for h in ctxs[i]["hosts"])]
+    if bnd:
+        alt = []
+        for i in bnd:
+            c2 = dict(ctxs[i])
+            c2["hosts"] = [dict(h, tick=h["tick"] + 1) if c2["tick"] - h["tick"] == eng.ttl else h for h in c2["hosts"]]
+            alt.append(c2)
+        mm2 = eng.run_model(alt, [obs[i] for i in bnd])
+        if mm2 is not None:
+            tolerated = {bnd[j] for j in range(len(bnd)) if j not in set(mm2)}
+            if tolerated:
+                ck.cov["free_point_deviations"] = ("%d contexts: the outcome agrees with the model only if a NodeHost that reported exactly ttl ago counts "
+                                                   "as live for placement (point left free by C02/C05); e.g. context %s" % (len(tolerated), ctxs[min(tolerated)].get("tag")))
+                unexplained = [i for i in unexplained if i not in tolerated]
     if unexplained and not ck.violations:
         i = unexplained[0]
         r = replay_of(ctxs[i], obs[i], eng.ttl, eng.step)
